@@ -189,6 +189,21 @@
           (= (psum L2 lo2 W2 wo2 false A (- n 1)) (psum L lo W wo false A n))))
      :pattern ((lem_psum_delete L2 lo2 W2 wo2 L lo W wo A n i)))))
 
+; deleting entry i by moving the last entry into its place (Clause.removeLit): explicit lemma instance
+;@sig lem_psum_swapdel : row rowz row rowz asg int int -> bool
+(declare-fun lem_psum_swapdel ((Array Int Int) Int (Array Int Int) Int Bool (Array Int Int) Int (Array Int Int) Int Bool (Array Int Bool) Int Int) Bool)
+;@lemma psum_swapdel
+(assert (forall ((L2 (Array Int Int)) (lo2 Int) (W2 (Array Int Int)) (wo2 Int) (wn2 Bool) (L (Array Int Int)) (lo Int) (W (Array Int Int)) (wo Int) (wn Bool) (A (Array Int Bool)) (n Int) (i Int))
+  (! (and (lem_psum_swapdel L2 lo2 W2 wo2 wn2 L lo W wo wn A n i)
+      (=> (and (<= 0 i) (< i n) (= wn2 wn)
+               (forall ((j Int)) (! (=> (and (<= lo2 j) (< j (+ lo2 (- n 1))) (not (= j (+ lo2 i)))) (= (select L2 j) (select L (+ lo (- j lo2))))) :pattern ((select L2 j))))
+               (=> (< i (- n 1)) (= (select L2 (+ lo2 i)) (select L (+ lo (- n 1)))))
+               (or wn (and (forall ((j Int)) (! (=> (and (<= wo2 j) (< j (+ wo2 (- n 1))) (not (= j (+ wo2 i)))) (= (select W2 j) (select W (+ wo (- j wo2))))) :pattern ((select W2 j))))
+                           (=> (< i (- n 1)) (= (select W2 (+ wo2 i)) (select W (+ wo (- n 1))))))))
+          (= (psum L2 lo2 W2 wo2 wn A (- n 1))
+             (- (psum L lo W wo wn A n) (pterm (select L (+ lo i)) (ite wn 1 (select W (+ wo i))) A)))))
+     :pattern ((lem_psum_swapdel L2 lo2 W2 wo2 wn2 L lo W wo wn A n i)))))
+
 ; DIMACS integer -> internal literal (specification of IntToLit)
 ;@sig ilit : int -> int
 (define-fun ilit ((x Int)) Int (ite (< x 0) (+ (* 2 (- (- x) 1)) 1) (* 2 (- x 1))))
@@ -272,6 +287,16 @@
       (=> (forall ((j Int)) (! (=> (and (<= wo j) (< j (+ wo n))) (= (select W j) 1)) :pattern ((select W j))))
           (= (wsum W wo false n) (ite (<= n 0) 0 n))))
      :pattern ((lem_wsum_ones W wo n)))))
+;@sig lem_wsum_elem : row int -> bool
+(declare-fun lem_wsum_elem ((Array Int Int) Int Int) Bool)
+; every entry of a non-negative row is at most the sum of the row
+;@lemma wsum_elem
+(assert (forall ((W (Array Int Int)) (wo Int) (n Int))
+  (! (and (lem_wsum_elem W wo n)
+      (=> (forall ((j Int)) (! (=> (and (<= wo j) (< j (+ wo n))) (>= (select W j) 0)) :pattern ((select W j))))
+          (and (>= (wsum W wo false n) 0)
+               (forall ((j Int)) (! (=> (and (<= wo j) (< j (+ wo n))) (<= (select W j) (wsum W wo false n))) :pattern ((select W j)))))))
+     :pattern ((lem_wsum_elem W wo n)))))
 ; marker used as the trigger of quantifiers over assignments: mentioning asgmark(B) for a
 ; particular assignment B instantiates every "for all assignments" fact at B
 ;@sig asgmark : asg -> bool
